@@ -122,7 +122,56 @@ class Table(object):
             names = p.get_parameter_names()
             p.fix_parameters({names[i % len(names)]: v for i, v in r['fix']})
             return p
+        if k == 'filter':
+            return build_filter(r)
+        if k in ('ctrl_post', 'ctrl_pred'):
+            import pandas as pd
+            mech = self.get(r['mech'])
+            errs = [self.get(h) for h in r['errors']]
+            ctrl = chi.ProblemModellingController(mech, errs)
+            outs = ctrl._mechanistic_model.outputs()
+            rows = []
+            for i in range(r['n_ids']):
+                for j, o in enumerate(outs):
+                    ts = r['times'][(i + j) % len(r['times'])]
+                    vs = r['values'][(i + j) % len(r['values'])]
+                    for t_, v in zip(ts, vs):
+                        rows.append({'ID': 'p%d' % i, 'Time': t_,
+                                     'Observable': o, 'Value': v,
+                                     'Dose': np.nan, 'Duration': np.nan})
+                if r.get('doses'):
+                    for (t_, d, dur) in r['doses'][i % len(r['doses'])]:
+                        rows.append({'ID': 'p%d' % i, 'Time': t_,
+                                     'Observable': np.nan, 'Value': np.nan,
+                                     'Dose': d, 'Duration': dur})
+            df = pd.DataFrame(rows)
+            kw = {'dose_key': None, 'dose_duration_key': None}
+            if r.get('doses'):
+                kw = {'dose_key': 'Dose', 'dose_duration_key': 'Duration'}
+            if r.get('pop'):
+                ctrl.set_population_model(self.get(r['pop']))
+            ctrl.set_data(df, **kw)
+            if k == 'ctrl_pred':
+                return ctrl.get_predictive_model()
+            ctrl.set_log_prior(zoo.build_prior(
+                {'n': ctrl.get_n_parameters(), 'kind': 'lognormal'}))
+            return ctrl.get_log_posterior(
+                individual=r.get('individual'))
         raise ValueError('unknown kind ' + k)
+
+
+FILTERS = {'G': 'GaussianFilter', 'GKDE': 'GaussianKDEFilter',
+           'GM': 'GaussianMixtureFilter', 'LN': 'LogNormalFilter',
+           'LNKDE': 'LogNormalKDEFilter'}
+
+
+def build_filter(r):
+    import chi
+    if r.get('cls') == 'COMP':
+        return chi.ComposedPopulationFilter(
+            [build_filter(x) for x in r['subs']])
+    data = np.array(r['data'], dtype=float)
+    return getattr(chi, FILTERS[r['cls']])(data)
 
 
 def deps(recipes, h, acc=None):
@@ -159,6 +208,9 @@ EVALS = {
     'filterpost': ['call', 's1', 'init'],
     'pred': ['sample', 'sample_df', 'regimen'],
     'poppred': ['sample', 'sample_df'],
+    'filter': ['f_ll', 'f_s1'],
+    'ctrl_post': ['call', 's1', 'init'],
+    'ctrl_pred': ['sample', 'sample_df', 'regimen'],
 }
 
 
@@ -218,6 +270,11 @@ def query(obj, kind, q, x, aux):
         if q == 'p_ll':
             return obj.compute_log_likelihood(x, obs, **kw)
         return obj.compute_sensitivities(x, obs, dlogp_dpsi=dlogp, **kw)
+    if q in ('f_ll', 'f_s1'):
+        sim = x
+        if q == 'f_ll':
+            return obj.compute_log_likelihood(sim)
+        return obj.compute_sensitivities(sim)
     if q == 'call':
         return obj(x)
     if q == 'pw':
@@ -228,7 +285,9 @@ def query(obj, kind, q, x, aux):
         return np.array(obj.sample_initial_parameters(2, aux['seed']))
     if q in ('sample', 'sample_df'):
         kw = {}
-        if kind == 'poppred' and obj._population_model.n_covariates():
+        if kind in ('poppred', 'ctrl_pred') and hasattr(
+                obj, '_population_model') \
+                and obj._population_model.n_covariates():
             kw['covariates'] = aux['cov'][0, :obj._population_model
                                           .n_covariates()]
         return obj.sample(
@@ -337,6 +396,10 @@ def run(scenario, world):
             aux = aux_of(scenario, pidx)
             if q in ('regimen', 'init'):
                 x = None
+            elif kind == 'filter':
+                x = np.array(vec, dtype=float)
+                if op.get('variant') == 'readonly':
+                    x.flags.writeable = False
             else:
                 x = make_arg(vec, op.get('variant', 'array'))
             snap_x = snapshot(x)
@@ -441,7 +504,7 @@ def run(scenario, world):
             if h not in kinds or h in dirty:
                 continue
             kind = kinds[h]
-            if kind not in ('logpost', 'hierpost', 'filterpost'):
+            if kind not in ('logpost', 'hierpost', 'filterpost', 'ctrl_post'):
                 continue
             obj = main.get(h)
             vecs = points[h]
@@ -668,6 +731,53 @@ def generate(rng, index, tier):
         if 'poppred' in menu:
             recipes.append({'h': 'pp', 'kind': 'poppred', 'pred': 'pred',
                             'pop': 'pop'})
+    if rng.random() < 0.3:
+        n_t, n_o, n_i = rng.randint(1, 3), rng.randint(1, 2), rng.randint(2, 4)
+
+        def fdata(log=False):
+            d = [[[round(rng.uniform(0.3, 2.0), 3) for _ in range(n_t)]
+                  for _ in range(n_o)] for _ in range(n_i)]
+            if rng.random() < 0.4:
+                d[rng.randrange(n_i)][rng.randrange(n_o)][
+                    rng.randrange(n_t)] = float('nan')
+            return d
+        if rng.random() < 0.3 and n_t >= 2:
+            k1 = rng.choice(sorted(FILTERS))
+            k2 = rng.choice(sorted(FILTERS))
+            d = fdata()
+            recipes.append({'h': 'flt', 'kind': 'filter', 'cls': 'COMP',
+                            'subs': [
+                {'cls': k1, 'data': [[row[:1] for row in ind] for ind in d]},
+                {'cls': k2, 'data': [[row[1:] for row in ind] for ind in d]}]})
+        else:
+            recipes.append({'h': 'flt', 'kind': 'filter',
+                            'cls': rng.choice(sorted(FILTERS)),
+                            'data': fdata()})
+        recipes[-1]['shape'] = [n_o, n_t]
+    if rng.random() < 0.35:
+        has_route = any(o['op'] == 'set_administration'
+                        for o in mech.get('config', []))
+        cr = {'h': 'cpost', 'kind': 'ctrl_post', 'mech': 'm', 'errors': errs,
+              'n_ids': rng.randint(1, 3),
+              'times': [sorted(rng.sample(grid, rng.randint(1, len(grid))))
+                        for _ in range(3)]}
+        cr['values'] = [_vals(rng, len(grid), 0.2, 2.0) for _ in range(3)]
+        if has_route and rng.random() < 0.7:
+            cr['doses'] = [[[round(0.2 + 1.3 * j + rng.uniform(0, 0.5), 1),
+                             round(rng.uniform(0.5, 3), 2),
+                             rng.choice([0.01, 0.1])]
+                            for j in range(rng.randint(1, 2))]
+                           for _ in range(3)]
+        if need_pop and rng.random() < 0.6 and zoo.pop_n_cov(pop) == 0:
+            cpop = set_n_ids_recipe(pop, cr['n_ids'])
+            recipes.append({'h': 'cpop', 'kind': 'pop', 'pop': cpop,
+                            'n_ids': cr['n_ids']})
+            cr['pop'] = 'cpop'
+        else:
+            cr['individual'] = 'p%d' % rng.randrange(cr['n_ids'])
+        recipes.append(cr)
+        if rng.random() < 0.5:
+            recipes.append(dict(cr, h='cpred', kind='ctrl_pred'))
     if 'redmech' in menu:
         recipes.append({'h': 'rm', 'kind': 'redmech', 'mech': 'm',
                         'fix': [[rng.randrange(n_mech),
@@ -681,8 +791,19 @@ def generate(rng, index, tier):
     t = Table([dict(r, fix=None) if r['kind'] == 'loglik' else r
                for r in recipes])
     points = {}
-    for r in recipes:
-        obj = t.get(r['h'])
+    for r in list(recipes):
+        if r['kind'] == 'filter':
+            n_o, n_t = r['shape']
+            points[r['h']] = [
+                [[[round(rng.uniform(0.3, 2.0), 3) for _ in range(n_t)]
+                  for _ in range(n_o)] for _ in range(rng.randint(2, 4))]
+                for _ in range(3)]
+            continue
+        obj = call(t.get, r['h'])
+        if is_exc(obj):
+            # a composition chi refuses to build: leave it out
+            recipes.remove(r)
+            continue
         n = obj.n_parameters()
         points[r['h']] = [_vals(rng, n) for _ in range(3)]
     if fixed_ll and 'lp' in [r['h'] for r in recipes]:
@@ -742,7 +863,8 @@ def generate(rng, index, tier):
             ops.append(op)
         elif r < 0.12 and par_on:
             cands = [h for h in handles
-                     if kinds[h] in ('logpost', 'hierpost', 'filterpost')]
+                     if kinds[h] in ('logpost', 'hierpost', 'filterpost',
+                                     'ctrl_post')]
             if not cands:
                 continue
             h = rng.choice(cands)
